@@ -73,6 +73,7 @@ class Profile:
     with_bw: bool = True
     min_host_events: int = 1
     causal_sync: bool = False                   # shrink kernels so that every synchronising call returns after the work it waits for
+    p_sync_touch: float = 0.0                   # a sync record ends exactly when a kernel of its stream starts
     n_pad: Tuple[int, int] = (0, 0)              # extra small host ops on their own thread (pushes row ids past 127 / 32767)
 
 
@@ -290,6 +291,19 @@ class Gen:
                                 "args": {"cuda_sync_kind": "Context Sync", "stream": -1, "correlation": e["args"]["correlation"], "External id": e["args"]["External id"]}})
                 else:
                     s_ = rng.choice(streams)
+                    if p.p_sync_touch > 0 and rng.random() < p.p_sync_touch:
+                        starts = sorted({k["ts"] for k in dev if k.get("cat") != "cuda_sync" and k["args"].get("stream") == s_
+                                         and e["ts"] <= k["ts"] <= e["ts"] + e["dur"]})
+                        if starts:
+                            b = rng.choice(starts)
+                            a = rng.randint(e["ts"], b)
+                            if rng.random() < 0.7:
+                                # a long record, and the kernel that starts when it ends is shorter than the record but outlives the call
+                                a = e["ts"]
+                                lo, hi = e["ts"] + e["dur"] - b + 1, b - a - 1
+                                for k in dev:
+                                    if k.get("cat") != "cuda_sync" and k["args"].get("stream") == s_ and k["ts"] == b and lo <= hi and k["dur"] > hi:
+                                        k["dur"] = rng.randint(lo, hi)
                     dev.append({"ph": "X", "cat": "cuda_sync", "name": "Stream Sync", "pid": gpu_pid, "tid": s_, "ts": a, "dur": b - a,
                                 "args": {"cuda_sync_kind": "Stream Sync", "stream": s_, "correlation": e["args"]["correlation"], "External id": e["args"]["External id"]}})
         if rng.random() < p.p_gpu_annotation and dev:
@@ -311,7 +325,8 @@ class Gen:
                         continue
                     if rec["name"] == "Stream Sync" and k["args"].get("stream") != rec["args"].get("stream"):
                         continue
-                    if k["ts"] <= b and k["ts"] + k["dur"] > c1:
+                    # work that starts before the record ends is waited for; work starting in the very instant the record ends is not
+                    if (k["ts"] < b or (k["ts"] == b and not p.p_sync_touch)) and k["ts"] + k["dur"] > c1:
                         k["dur"] = max(0, c1 - k["ts"])
         for e in host:
             e.pop("_launch", None)
@@ -363,6 +378,81 @@ def gen_case(seed: int, case_no: int, prof: Profile) -> dict:
         ranks[r] = {"events": evs, "fmt": "gz" if rng.random() < prof.p_gz else "json",
                     "indent": rng.random() < 0.3}
     return {"ranks": ranks, "profile": prof.name, "seed": seed, "case_no": case_no, "T": T, "epoch": epoch}
+
+
+def gen_sync_scenario(seed: int, case_no: int) -> dict:
+    """Template family for the synchronisation edges of the critical-path graph (randomised instants, exact touches):
+    thread 1: an operator launches k1; a blocking cudaStreamSynchronize / cudaDeviceSynchronize (optionally nested in an operator) waits
+    for it; the record of the wait ends when k1 ends; a long operator tail follows.  thread 2: an operator launches k2 on the same (or
+    another) stream before the wait is over; k2 starts exactly when k1 ends (or a little later), is often shorter than the wait record
+    and may outlive the call.  All instants are causally consistent: work starts after its launch, the call returns after k1."""
+    rng = random.Random(seed * 2_000_003 + case_no)
+    host_pid, gpu_pid = 1, 0
+    s1 = rng.choice([7, 13, 20])
+    s2 = s1 if rng.random() < 0.7 else rng.choice([x for x in (7, 13, 20) if x != s1])
+    ext = [1]
+    corr = [100]
+
+    def X(cat, name, pid, tid, ts, dur, **args):
+        if cat in ("cpu_op", "cuda_runtime"):
+            args.setdefault("External id", ext[0])
+            ext[0] += 1
+        return {"ph": "X", "cat": cat, "name": name, "pid": pid, "tid": tid, "ts": ts, "dur": dur, "args": args}
+
+    t = rng.randint(0, 5)
+    evs = []
+    evs.append(X("cpu_op", "aten::zeros", host_pid, 1, t, rng.randint(1, 3)))
+    t = evs[-1]["ts"] + evs[-1]["dur"] + rng.randint(0, 2)
+    # operator 1 with launch 1
+    d1 = rng.randint(4, 12)
+    l1 = t + rng.randint(1, 2)
+    c1 = corr[0]; corr[0] += 1
+    evs.append(X("cpu_op", rng.choice(CPU_OPS), host_pid, 1, t, d1))
+    evs.append(X("cuda_runtime", "cudaLaunchKernel", host_pid, 1, l1, rng.randint(1, max(1, t + d1 - l1 - 1)), correlation=c1))
+    k1s = l1 + rng.randint(0, 8)
+    k1d = rng.randint(6, 40)
+    k1e = k1s + k1d
+    evs.append(X("kernel", rng.choice(COMPUTE_KERNELS + COMM_KERNELS), gpu_pid, s1, k1s, k1d, stream=s1, device=gpu_pid, correlation=c1))
+    # the blocking call: starts after operator 1 and before k1 ends; returns when or after k1 ends
+    sa = rng.randint(t + d1, max(t + d1, k1e - 2))
+    sb = k1e + rng.randint(0, 3)
+    dev_sync = rng.random() < 0.3
+    cs = corr[0]; corr[0] += 1
+    nested = rng.random() < 0.5
+    if nested:
+        evs.append(X("cpu_op", "aten::item", host_pid, 1, sa - 0, sb - sa + rng.randint(0, 4)))
+    evs.append(X("cuda_runtime", "cudaDeviceSynchronize" if dev_sync else "cudaStreamSynchronize", host_pid, 1, sa, sb - sa, correlation=cs))
+    ra = rng.randint(sa, max(sa, k1s))
+    if dev_sync:
+        evs.append({"ph": "X", "cat": "cuda_sync", "name": "Context Sync", "pid": gpu_pid, "tid": 0, "ts": ra, "dur": k1e - ra,
+                    "args": {"cuda_sync_kind": "Context Sync", "stream": -1, "correlation": cs, "External id": evs[-1]["args"]["External id"]}})
+    else:
+        evs.append({"ph": "X", "cat": "cuda_sync", "name": "Stream Sync", "pid": gpu_pid, "tid": s1, "ts": ra, "dur": k1e - ra,
+                    "args": {"cuda_sync_kind": "Stream Sync", "stream": s1, "correlation": cs, "External id": evs[-1]["args"]["External id"]}})
+    tail_start = max(e["ts"] + e["dur"] for e in evs if e["tid"] == 1 and e["pid"] == host_pid) + rng.randint(0, 3)
+    evs.append(X("cpu_op", rng.choice(CPU_OPS), host_pid, 1, tail_start, rng.randint(5, 80)))
+    # thread 2
+    if rng.random() < 0.85:
+        # launched while thread 1 is already blocked: work enqueued before the call would have to be waited for
+        o2s = rng.randint(0, max(0, k1e - 6))
+        l2 = rng.randint(max(o2s + 1, sa), max(o2s + 1, sa, k1e - 1))
+        o2e = max(l2 + 2, rng.randint(l2 + 2, k1e + 10))
+        c2 = corr[0]; corr[0] += 1
+        evs.append(X("cpu_op", rng.choice(CPU_OPS), host_pid, 2, o2s, o2e - o2s))
+        evs.append(X("cuda_runtime", "cudaLaunchKernel", host_pid, 2, l2, rng.randint(1, max(1, o2e - l2 - 1)), correlation=c2))
+        gap = 0 if rng.random() < 0.6 else rng.randint(1, 3)
+        k2s = max(k1e + gap, l2)
+        k2d = rng.choice([rng.randint(1, 6), rng.randint(1, 30), 0])
+        evs.append(X("kernel", rng.choice(COMPUTE_KERNELS), gpu_pid, s2, k2s, k2d, stream=s2, device=gpu_pid, correlation=c2))
+    epoch = rng.choice([0, 1000000])
+    first, rest = evs[0], evs[1:]
+    rng.shuffle(rest)
+    out = [first] + rest
+    for e in out:
+        e["ts"] += epoch
+    T = max(e["ts"] + e["dur"] for e in out) - epoch
+    return {"ranks": {0: {"events": out, "fmt": "gz" if rng.random() < 0.5 else "json", "indent": False}}, "profile": "sync_scenario",
+            "seed": seed, "case_no": case_no, "T": T, "epoch": epoch}
 
 
 def write_case(case: dict, d: str) -> Dict[int, str]:
@@ -470,6 +560,6 @@ _reg(Profile(name="kseq", tmax_choices=(24, 40, 110, 600), n_ranks=(1, 2), n_thr
              kernel_names=("gemm", "relu", "ncclKernel_AllReduce", "Memcpy DtoD (Device -> Device)", "bn")))
 _reg(Profile(name="cp", tmax_choices=(20, 40, 110, 600), n_ranks=(1, 2), n_threads=(1, 2), max_depth=4, p_zero_dur=0.0, p_launch=0.55, p_mem_launch=0.3,
              p_missing_kernel=0.1, p_orphan_kernel=0.1, n_steps=(0, 3), p_kernel_zero=0.03, p_same_ts_as_launch=0.1, p_sync=0.6, causal_sync=True,
-             n_streams=(1, 3), epoch_choices=(0, 1000000)))
+             p_sync_touch=0.8, n_streams=(1, 3), epoch_choices=(0, 1000000)))
 _reg(Profile(name="cp_tiny", tmax_choices=(10, 14, 20), n_ranks=(1, 1), n_threads=(1, 2), max_depth=3, p_zero_dur=0.0, p_launch=0.6, p_mem_launch=0.3,
-             n_steps=(0, 2), p_kernel_zero=0.05, p_same_ts_as_launch=0.3, p_sync=0.7, causal_sync=True, n_streams=(1, 2), epoch_choices=(0,)))
+             n_steps=(0, 2), p_kernel_zero=0.05, p_same_ts_as_launch=0.3, p_sync=0.7, causal_sync=True, p_sync_touch=0.8, n_streams=(1, 2), epoch_choices=(0,)))
